@@ -232,6 +232,13 @@ def clusterStep (s : CSt) (now : Int) (op : String) (a : List String) : Option (
     let kind := if arg 1 == "B" then Kind.bak else Kind.prim
     let c : Copy := ⟨unhx (arg 4), int (arg 5), int (arg 6)⟩
     some ({ s with cl := s.cl.setCopy (nat (arg 0)) kind (arg 2).toUTF8.toList (unhx (arg 3)) (some c) }, "ok")
+  | "wb.ttl" =>
+    let dm := (arg 0).toUTF8.toList
+    let k := unhx (arg 1)
+    let f := fun (c : Option Copy) => match c with | some x => toString x.ttl | none => "-"
+    let parts := (range s.n).map (fun i =>
+      s!"m{i}:P={f (s.cl.copy i .prim dm k)},B={f (s.cl.copy i .bak dm k)}")
+    some (s, " ".intercalate parts)
   | "wb" =>
     let dm := (arg 0).toUTF8.toList
     let k := unhx (arg 1)
